@@ -1,5 +1,5 @@
 (* Pins_C18.v — the statements of Props_C18.v, pinned. *)
-From FV Require Import Base FsModel AtomicModel Props_C18.
+From FV Require Import Base FsModel AtomicModel AtomicProofs AtomicProofs5 Props_C18.
 Open Scope N_scope.
 Check C18_injective : forall (d p p' : path), wf_abs p -> wf_abs p' -> mv_target d p = mv_target d p' -> p = p'.
 Check C18_shape : forall (d rest : path),
@@ -13,3 +13,9 @@ Check C18_copy_then_delete : forall (sl : bool) (src tgt : path) (rn : bool) (no
   pre (FMove src tgt rn now) s ->
   In st (states o i (prog_of sl (FMove src tgt rn now)) s) ->
   same_file s st src src \/ (file_bytes s src <> None /\ file_bytes st (norm tgt) = file_bytes s src).
+Check C18_resolved_shape : forall (d rest : path), clean rest ->
+  norm (mv_target d (root_c :: rest)) = norm d ++ rest.
+Check C18_injective_resolved : forall (d p p' : path), wf_clean p -> wf_clean p' ->
+  norm (mv_target d p) = norm (mv_target d p') -> p = p'.
+Check C18_targets_nodup : forall (d : path) (srcs : list path), Forall wf_clean srcs -> NoDup srcs ->
+  NoDup (map (fun p => norm (mv_target d p)) srcs).
